@@ -193,6 +193,21 @@ def run(ctx):
         for B in OPERANDS:
             for op, w in (("==", "?eq"), ("!=", "?ne"), ("<", "?lt"), (">=", "?ge")):
                 cases.append(("infix", "(1, 2) (%s %s %s) \"yes\"" % (A, op, B), "(1, 2) ?(let X1 := %s; let X2 := %s; X1 X2 %s) \"yes\"" % (A, B, w)))
+    # tokens delimit themselves: no whitespace is needed after an operator, `:=`, a bracket or a comma, also not
+    # before a negative literal, a string or a bracket
+    for op in ("==", "!=", "<", ">", "<=", ">=", "=~", "!~"):
+        for B, strs in (("-1", False), ("-0x10", False), ("1", False), ("(-1)", False), ("[-1]", False), ('"-1"', True), ("-1 -2 add", False), ('"a.c"', True)):
+            if (op in ("=~", "!~")) != strs and op in ("=~", "!~"):
+                continue
+            pre = '("-1", "abc", "a.c")' if strs else "(-1, -16, 1, -3)"
+            cases.append(("compact", "%s (dup %s %s)" % (pre, op, B), "%s(dup %s%s)" % (pre, op, B)))
+            cases.append(("compact", "%s (%s %s)" % (pre, op, B), "%s(%s%s)" % (pre, op, B)))
+            cases.append(("compact", "%s [(%s %s)]" % (pre, op, B), "%s[(%s%s)]" % (pre, op, B)))
+    for B in ("-1", "-0x10", "(-1,-2)", '"a"', "[-1,-2]", "-1 -1 add"):
+        cases.append(("compact", "let X := %s ; X" % B, "let X:=%s;X" % B))
+        cases.append(("compact", "let X Y := %s %s ; [ X , Y ]" % (B, B), "let X Y:=%s %s;[X,Y]" % (B, B)))
+        cases.append(("compact", "( %s , %s ) ( |A| [ A , -1 ] )" % (B, B), "(%s,%s)(|A|[A,-1])" % (B, B)))
+        cases.append(("compact", "1 ?( %s ) !( -1 0 ?eq ) ( -1 || -2 )" % B, "1?(%s)!(-1 0 ?eq)(-1||-2)" % B))
     # strings in splices in strings ... to depth 4, the innermost literal holding bytes that mean
     # something to the scanner elsewhere (brackets, also unbalanced; quote, backslash, splice
     # delimiters): the byte (where it can be written) and its \x / octal escapes are the same
@@ -248,7 +263,7 @@ def run(ctx):
     ctx.cov.update({
         "evaluations": evaluations,
         "distinct_nontrivial": len(nontrivial),
-        "rule": "random nested programs (depth <= 3) + string-heavy ones, each (a) run with and without tree::simplify, (b) its simplified tree compared with the model's simplify of the parsed tree, (c) rewritten by every applicable equivalence (two random layouts with all three comment styles, parentheses, string continuation, hex/octal escapes, raw strings, %s %d %x %o %b expansions) strings nested in splices to depth 4 whose innermost literal holds brackets / % / quotes written as bytes and as escapes (value checked), and generated sugar pairs (E? / (E,), if / ALT of assertions, ?(E) / capture, infix / let); non-trivial = terminates with at least one result",
+        "rule": "random nested programs (depth <= 3) + string-heavy ones, each (a) run with and without tree::simplify, (b) its simplified tree compared with the model's simplify of the parsed tree, (c) rewritten by every applicable equivalence (two random layouts with all three comment styles, parentheses, no whitespace at all where tokens delimit themselves (operators, `:=`, brackets, commas before negative literals / strings / brackets), string continuation, hex/octal escapes, raw strings, %s %d %x %o %b expansions) strings nested in splices to depth 4 whose innermost literal holds brackets / % / quotes written as bytes and as escapes (value checked), and generated sugar pairs (E? / (E,), if / ALT of assertions, ?(E) / capture, infix / let); non-trivial = terminates with at least one result",
         "samples": [cases[0][2][:200], cases[len(cases) // 2][2][:200], cases[-1][1], cases[-1][2]],
         "rewrite_kinds": kinds,
         "trees_changed_by_simplify": changed,
